@@ -333,6 +333,7 @@ pub fn run(ctx: &mut Ctx) {
         }
         let mut r = Rng::for_case(ctx.seed, "C02-T", i);
         let c: Vec<String> = (0..3).map(|_| { let (op, p) = r.pick(&e1).clone(); cmp_text(op, &p) }).collect();
+        ctx.begin(|| format!("C02 triple {:?}", c));
         let orders = [[0, 1, 2], [0, 2, 1], [1, 0, 2], [1, 2, 0], [2, 0, 1], [2, 1, 0]];
         let texts: Vec<String> = orders.iter().map(|o| format!("{} {} {}", c[o[0]], c[o[1]], c[o[2]])).collect();
         let parsed: Vec<Option<Range>> = texts.iter().map(|t| guarded(|| Range::parse(t)).ok().and_then(|x| x.ok())).collect();
